@@ -234,6 +234,8 @@ func cmdCheck(args []string) int {
 	assumptions := map[string]bool{}
 	violations := 0
 	knownHits := map[string]bool{}
+	dupViol := map[string]string{}
+	dupCount := map[string]int{}
 	knownObl := 0
 	replayDir := filepath.Join(*verif, "replays", prop)
 	_ = os.RemoveAll(replayDir)
@@ -249,9 +251,20 @@ func cmdCheck(args []string) int {
 				return
 			}
 		}
+		// one VIOLATION per failed obligation (function + clause); further paths are counted
+		dk := fn + "|" + kind + "|" + name
+		if prev, dup := dupViol[dk]; dup {
+			dupCount[dk]++
+			if f, err := os.OpenFile(prev, os.O_APPEND|os.O_WRONLY, 0o644); err == nil {
+				fmt.Fprintf(f, "\nalso fails on path: %s (query %s, solver %s)\n", strings.Join(trace, " "), file, status)
+				f.Close()
+			}
+			return
+		}
 		violations++
 		_ = os.MkdirAll(replayDir, 0o755)
 		rp := filepath.Join(replayDir, fmt.Sprintf("%03d-%s.txt", violations, sanitizeFile(shortFunc(fn)+"."+kind)))
+		dupViol[dk] = rp
 		var b strings.Builder
 		fmt.Fprintf(&b, "property: %s\nfailed obligation: %s\nkind: %s\nfunction: %s\nat: %s\nsolver status: %s\nquery: %s\npath: %s\n", prop, name, kind, fn, pos, status, file, strings.Join(trace, " "))
 		suffix := " no-failing-input-found"
